@@ -305,7 +305,10 @@ def conditions(tier):
             shard.setdefault("small_ints", 1 if (famA, ia, famB, ib) in fullrange else 0)
         else:
             shard.setdefault("small_ints", 0 if (famA, ia) == (famB, ib) and (famA, ia, famB, ib) not in fullrange else 1)
-        conds.append({"name": name, "func": "pair", "shard": shard, "timeout": kw.pop("timeout", 240 if tier == "quick" else 1200), **kw})
+        tmo = 240 if tier == "quick" else 1200
+        if shard.get("small_ints"):
+            tmo *= 3  # full-range ints: seconds of solver time per path
+        conds.append({"name": name, "func": "pair", "shard": shard, "timeout": kw.pop("timeout", tmo), **kw})
 
     def strtotal(fam, var):
         if fam == "pair":
